@@ -470,9 +470,8 @@ pub(crate) mod util {
                         math_expr => "expression",
                         function_return_type => "return type",
                         function_type => "function type",
-                        open_ended_type => "open ended list spread",
+                        open_ended_marker => "list spread",
                         list_type => "list type",
-                        list_type_open_only => "list spread",
                         add => "+",
                         subtract => "-",
                         multiply => "*",
